@@ -9,7 +9,8 @@
 From Coq Require Import String List Bool ZArith QArith Arith Lia Sorting.Permutation.
 From GV Require Import Base.Outcome Base.AMap Model.GState Model.Creation Model.Query Model.Derived.
 From GV Require Import Model.Par Model.Dijkstra Model.Cent Model.Brandes Model.Closeness Model.ParFns.
-From GV Require Import Spec.ShortestPathDef Spec.ShortestPathCheck Proofs.WFDefs Proofs.DerivedContent Proofs.ParOk Proofs.BrandesOk Proofs.DijkstraTotalOk Proofs.DijkstraModelOk Proofs.DijkstraNamesOk.
+From GV Require Import Spec.ShortestPathDef Spec.ShortestPathCheck Spec.EdgeStoreGraph Proofs.WFDefs Proofs.DerivedContent Proofs.ParOk Proofs.BrandesOk Proofs.DijkstraTotalOk Proofs.DijkstraModelOk Proofs.DijkstraNamesOk.
+From GV Require Import Proofs.DijkstraErrKind Proofs.DijkstraWF.
 Import ListNotations.
 Close Scope Q_scope.
 Open Scope nat_scope.
@@ -168,7 +169,125 @@ Section GatherOk.
       destruct (omapM_fail xs O) as (x0 & Hx0 & Hf0 & E0).
       unfold gather_seq. rewrite Ea, E0. apply as_failure_retype. now apply U.
   Qed.
+
+  (* ---- the Result-collecting region: items return `Result`, rayon's `collect::<Result<Vec<_>, E>>()` ---- *)
+  Lemma all_ok_omapM xs : (forall x, In x xs -> is_ok (f x) = true) -> is_ok (omapM f xs) = true.
+  Proof.
+    induction xs as [|x t IH]; intros H; cbn [omapM]; [reflexivity|].
+    pose proof (H x (or_introl eq_refl)) as Hx. destruct (f x) as [y| | |]; try discriminate. cbn [bind].
+    specialize (IH (fun z Hz => H z (or_intror Hz))). destruct (omapM f t); try discriminate. reflexivity.
+  Qed.
+
+  Lemma fpf_none_ok xs : forall k ran, (forall x, In x xs -> is_ok (f x) = true) -> first_panic_from k ran f xs = None.
+  Proof.
+    induction xs as [|x t IH]; intros k ran H; cbn [first_panic_from]; [reflexivity|].
+    pose proof (H x (or_introl eq_refl)) as Hx. destruct (f x) as [y| | |]; try discriminate. cbn [panics].
+    rewrite andb_false_r. apply IH. intros z Hz. apply H. now right.
+  Qed.
+
+  Lemma fpf_some xs : forall k ran e, first_panic_from k ran f xs = Some e ->
+    exists x, In x xs /\ is_ok (f x) = false /\ e = as_failure (f x).
+  Proof.
+    induction xs as [|x t IH]; intros k ran e H; cbn [first_panic_from] in H; [discriminate|].
+    destruct (existsb (Nat.eqb k) ran && panics (f x)) eqn:E.
+    - inversion H; subst e. apply andb_true_iff in E. destruct E as [_ E]. exists x. split; [now left|].
+      split; [|reflexivity]. destruct (f x); cbn in *; congruence.
+    - destruct (IH _ _ _ H) as (z & Hz & Hf & He). exists z. split; [now right | auto].
+  Qed.
+
+  Lemma fpf_none_inv xs : forall k ran, first_panic_from k ran f xs = None ->
+    forall j x, nth_error xs j = Some x -> In (k + j) ran -> panics (f x) = false.
+  Proof.
+    induction xs as [|x0 t IH]; intros k ran H j x Hj Hin; [destruct j; discriminate|].
+    cbn [first_panic_from] in H. destruct (existsb (Nat.eqb k) ran && panics (f x0)) eqn:E; [discriminate|].
+    destruct j as [|j]; cbn [nth_error] in Hj.
+    - inversion Hj; subst x0. apply andb_false_iff in E. destruct E as [E | E]; [|exact E].
+      exfalso. rewrite Nat.add_0_r in Hin.
+      assert (C : existsb (Nat.eqb k) ran = true) by (apply existsb_exists; exists k; split; [exact Hin | apply Nat.eqb_refl]).
+      congruence.
+    - apply (IH (S k) ran H j x Hj). replace (S k + j) with (k + S j) by lia. exact Hin.
+  Qed.
+
+  Lemma rec_none_ok pi xs : (forall x, In x xs -> is_ok (f x) = true) -> recorded_error pi f xs = None.
+  Proof.
+    intros H. induction pi as [|i t IH]; cbn [recorded_error]; [reflexivity|].
+    destruct (nth_error xs i) as [x|] eqn:E; [|exact IH].
+    pose proof (H x (nth_error_In _ _ E)) as Hx. destruct (f x); try discriminate. exact IH.
+  Qed.
+
+  Lemma rec_some pi xs k : recorded_error pi f xs = Some k -> exists x, In x xs /\ f x = Err k.
+  Proof.
+    induction pi as [|i t IH]; cbn [recorded_error]; [discriminate|].
+    destruct (nth_error xs i) as [x|] eqn:E; [|exact IH].
+    destruct (f x) as [y|k'| |] eqn:Ex; try exact IH.
+    intros H. inversion H; subst k'. exists x. split; [eapply nth_error_In; eauto | exact Ex].
+  Qed.
+
+  Lemma rec_none_inv pi xs : recorded_error pi f xs = None ->
+    (forall i x, In i pi -> nth_error xs i = Some x -> returns_err (f x) = false) /\ started pi f xs = pi.
+  Proof.
+    induction pi as [|i t IH]; cbn [recorded_error started]; intros H; [split; [intros i x []|reflexivity]|].
+    destruct (nth_error xs i) as [x|] eqn:E.
+    - destruct (f x) as [y|k| |] eqn:Ex; try discriminate; destruct (IH H) as [H1 H2]; cbn [returns_err]; rewrite H2;
+        (split; [|reflexivity]); intros j z [<- | Hj] Hz; try (now apply (H1 j z));
+        rewrite E in Hz; inversion Hz; subst z; rewrite Ex; reflexivity.
+    - destruct (IH H) as [H1 H2]. rewrite H2. split; [|reflexivity].
+      intros j z [<- | Hj] Hz; [congruence | now apply (H1 j z)].
+  Qed.
+
+  (* success, and the value on success, do not depend on the schedule *)
+  Theorem gather_result_ok pi xs ys : schedule (length xs) pi ->
+    gather_seq f xs = Ok ys -> gather_result_par pi f xs = Ok ys.
+  Proof.
+    intros P H. unfold gather_result_par. pose proof (omapM_ok_all xs ys H) as A.
+    rewrite (fpf_none_ok xs 0 _ A), (rec_none_ok pi xs A). now rewrite gather_par_eq_seq.
+  Qed.
+
+  (* on failure the region fails with the failure — the returned `Err`, or the panic — of SOME failing item *)
+  Theorem gather_result_fail pi xs : schedule (length xs) pi -> is_ok (gather_seq f xs) = false ->
+    exists x, In x xs /\ is_ok (f x) = false /\ gather_result_par pi f xs = as_failure (f x).
+  Proof.
+    intros P H. unfold gather_result_par.
+    destruct (first_panic_from 0 (started pi f xs) f xs) as [e|] eqn:Ep.
+    - destruct (fpf_some xs 0 _ e Ep) as (x & Hx & Hf & He). exists x. auto.
+    - destruct (recorded_error pi f xs) as [k|] eqn:Er.
+      + destruct (rec_some pi xs k Er) as (x & Hx & Ex). exists x. rewrite Ex. auto.
+      + exfalso. destruct (rec_none_inv pi xs Er) as [Hne Hst]. rewrite Hst in Ep.
+        assert (A : forall x, In x xs -> is_ok (f x) = true).
+        { intros x Hx. destruct (In_nth_error _ _ Hx) as [i Hi].
+          assert (Hin : In i pi).
+          { apply (Permutation_in i (Permutation_sym P)). apply in_seq.
+            assert (i < length xs) by (apply nth_error_Some; congruence). lia. }
+          pose proof (Hne i x Hin Hi) as N1. pose proof (fpf_none_inv xs 0 pi Ep i x Hi Hin) as N2.
+          destruct (f x); cbn in *; congruence. }
+        unfold gather_seq in H. rewrite (all_ok_omapM xs A) in H. discriminate.
+  Qed.
+
+  (* hence: when all failing items fail alike — here: when every item error has the same kind and no item
+     panics — the error rayon happens to keep is the one the serial collect returns *)
+  Theorem gather_result_eq_seq pi xs : schedule (length xs) pi -> fail_alike f xs ->
+    gather_result_par pi f xs = gather_seq f xs.
+  Proof.
+    intros P U. destruct (is_ok (gather_seq f xs)) eqn:O.
+    - destruct (gather_seq f xs) as [ys| | |] eqn:E; try discriminate. now apply gather_result_ok.
+    - destruct (gather_result_fail pi xs P O) as (x & Hx & Hf & Ea).
+      destruct (omapM_fail xs O) as (x0 & Hx0 & Hf0 & E0).
+      unfold gather_seq. rewrite Ea, E0. apply as_failure_retype. now apply U.
+  Qed.
 End GatherOk.
+
+Theorem result_region {X Y} (f : X -> outcome Y) (pi : list nat) (xs : list X) :
+  schedule (length xs) pi ->
+  (forall ys, gather_seq f xs = Ok ys -> gather_result_par pi f xs = Ok ys) /\
+  (is_ok (gather_seq f xs) = false ->
+   exists x, In x xs /\ is_ok (f x) = false /\ gather_result_par pi f xs = as_failure (f x)) /\
+  (fail_alike f xs -> gather_result_par pi f xs = gather_seq f xs).
+Proof.
+  intros P. split; [|split].
+  - intros ys. now apply gather_result_ok.
+  - now apply gather_result_fail.
+  - now apply gather_result_eq_seq.
+Qed.
 
 Theorem pessimistic_region {X Y} (f : X -> outcome Y) (pi : list nat) (xs : list X) :
   schedule (length xs) pi ->
@@ -189,13 +308,20 @@ Section ShapesOk.
   Variable f : X -> outcome Y.
 
   Theorem post_arm_par_eq_serial (post : list Y -> outcome R) pi xs :
-    schedule (length xs) pi -> post_arm (Rayon pi) f post xs = post_arm Serial f post xs.
-  Proof. intros P. unfold post_arm. cbn [gather]. now rewrite gather_par_eq_seq. Qed.
+    schedule (length xs) pi -> fail_alike f xs ->
+    post_arm (Rayon pi) f post xs = post_arm Serial f post xs.
+  Proof. intros P U. unfold post_arm. cbn [gather_result]. now rewrite gather_result_eq_seq. Qed.
 
   Theorem post_arm_abort_eq_serial (post : list Y -> outcome R) pi xs :
     schedule (length xs) pi -> fail_alike f xs ->
     post_arm (RayonAbort pi) f post xs = post_arm Serial f post xs.
-  Proof. intros P U. unfold post_arm. cbn [gather]. now rewrite gather_abort_eq_seq. Qed.
+  Proof. intros P U. unfold post_arm. cbn [gather_result]. now rewrite gather_abort_eq_seq. Qed.
+
+  (* whatever the items do: an Ok outcome and its value are those of the serial arm *)
+  Theorem post_arm_par_ok (post : list Y -> outcome R) pi xs ys :
+    schedule (length xs) pi -> gather_seq f xs = Ok ys ->
+    post_arm (Rayon pi) f post xs = post_arm Serial f post xs.
+  Proof. intros P H. unfold post_arm. cbn [gather_result]. rewrite H. now rewrite (gather_result_ok f pi xs ys P H). Qed.
 
   Lemma omapM_then_fold (combine : B -> Y -> B) xs : forall init,
     (do ys <- omapM f xs; Ok (fold_left combine ys init)) =
@@ -222,52 +348,191 @@ Section ShapesOk.
 End ShapesOk.
 
 (* ------------------------------------------------------------------ dijkstra.rs *)
+(* Since the repair of F22 the items of all_pairs / multi_source return the per-source `Result` and the
+   region is collected into `Result<Vec<_>, Error>`; rayon keeps the error of SOME failing item.  The arms
+   therefore agree
+     - on EVERY graph state as far as success is concerned: one arm returns Ok v iff the other does
+       ([*_ok_any_state]);
+     - exactly (Ok value, Err kind) whenever the failing items fail alike — which is the case on every
+       coherent state, whatever the weights: the per-source search neither panics nor runs out of fuel
+       (DijkstraTotalOk) and the only `Err` it can return is ContradictoryPaths (DijkstraErrKind), and for
+       multi_source the source / target names have been checked up front, so NodeNotFound is excluded. *)
 Section DijkstraArmsOk.
   Context {T A : Type}.
   Variable teqb : T -> T -> bool.
   Notation gstate := (gstate T A).
 
+  (* on every graph state: the up-front check `has_nodes` / `has_node` succeeded, so the names are keys of
+     nodes_map *)
+  Lemma has_node_true_lookup : forall (g : gstate) x,
+    has_node teqb g x = Ok true -> exists i, lookup teqb x (nodes_map g) = Some i.
+  Proof.
+    intros g x H. unfold has_node, get_node, contains_key, get_node_index in H.
+    destruct (lookup teqb x (nodes_map g)) as [i|]; [eauto | cbn in H; discriminate].
+  Qed.
+
+  Lemma has_nodes_true_lookup : forall (g : gstate) xs,
+    has_nodes teqb g xs = Ok true -> forall x, In x xs -> exists i, lookup teqb x (nodes_map g) = Some i.
+  Proof.
+    intros g. induction xs as [|y t IH]; intros H x Hx; [destruct Hx|]. cbn [has_nodes] in H.
+    destruct (has_node teqb g y) as [b| | |] eqn:E; cbn [bind] in H; try discriminate.
+    destruct b; [|discriminate]. destruct Hx as [<- | Hx]; [now apply has_node_true_lookup | now apply IH].
+  Qed.
+
+  (* --- the items --- *)
+  (* multi_source: every item is Ok or Err ContradictoryPaths once the names are present — ANY weights,
+     any cutoff *)
+  Lemma multi_source_items_fail_alike : forall (g : gstate) weighted sources target cutoff fo wp,
+    wf_adj g -> names_wf teqb g ->
+    (forall s, In s sources -> exists si, lookup teqb s (nodes_map g) = Some si) ->
+    (forall t, target = Some t -> exists i, lookup teqb t (nodes_map g) = Some i) ->
+    fail_alike (multi_source_item teqb g weighted target cutoff fo wp) sources.
+  Proof.
+    intros g weighted sources target cutoff fo wp W N Hs Ht x x' Hx Hx' Hf Hf'. unfold multi_source_item in *.
+    destruct (single_source_present_cases teqb g weighted x target cutoff fo wp W N (Hs x Hx) Ht) as [[m E] | E];
+      rewrite E in Hf |- *; [discriminate|].
+    destruct (single_source_present_cases teqb g weighted x' target cutoff fo wp W N (Hs x' Hx') Ht) as [[m E'] | E'];
+      rewrite E' in Hf' |- *; [discriminate|]. reflexivity.
+  Qed.
+
+  (* all_pairs: on a well-formed adjacency the per-source search neither panics nor runs out of fuel
+     (DijkstraTotalOk) and its only Err is ContradictoryPaths: the failing items fail alike, whatever
+     the weights *)
+  Lemma all_pairs_items_fail_alike : forall (g : gstate) weighted target ti cutoff fo wp,
+    wf_adj g ->
+    fail_alike (all_pairs_item g weighted target ti cutoff fo wp) (seq 0 (number_of_nodes g)).
+  Proof.
+    intros g weighted target ti cutoff fo wp W x x' Hx Hx' Hf Hf'.
+    apply in_seq in Hx. apply in_seq in Hx'.
+    assert (F := run_from_index_fine_adj g weighted x target ti cutoff fo wp W ltac:(lia)).
+    assert (F' := run_from_index_fine_adj g weighted x' target ti cutoff fo wp W ltac:(lia)).
+    unfold all_pairs_item in *.
+    destruct (run_from_index g weighted x target ti cutoff fo wp) as [r|k| |] eqn:E; cbn in F, Hf |- *; try contradiction; try discriminate.
+    destruct (run_from_index g weighted x' target ti cutoff fo wp) as [r'|k'| |] eqn:E'; cbn in F', Hf' |- *; try contradiction; try discriminate.
+    rewrite (run_from_index_err g weighted x target ti cutoff fo wp k E).
+    rewrite (run_from_index_err g weighted x' target ti cutoff fo wp k' E'). reflexivity.
+  Qed.
+
   (* --- multi_source --- *)
+  (* generic form: any graph state, under "the failing items fail alike" *)
   Theorem multi_source_parallel_eq_serial : forall pi (g : gstate) weighted sources target cutoff fo wp,
     schedule (length sources) pi ->
+    fail_alike (multi_source_item teqb g weighted target cutoff fo wp) sources ->
     multi_source_arm teqb (Rayon pi) g weighted sources target cutoff fo wp =
     multi_source_arm teqb Serial g weighted sources target cutoff fo wp.
   Proof.
-    intros pi g weighted sources target cutoff fo wp P. unfold multi_source_arm.
+    intros pi g weighted sources target cutoff fo wp P U. unfold multi_source_arm.
     now rewrite post_arm_par_eq_serial.
+  Qed.
+
+  Theorem multi_source_abort_eq_serial : forall pi (g : gstate) weighted sources target cutoff fo wp,
+    schedule (length sources) pi ->
+    fail_alike (multi_source_item teqb g weighted target cutoff fo wp) sources ->
+    multi_source_arm teqb (RayonAbort pi) g weighted sources target cutoff fo wp =
+    multi_source_arm teqb Serial g weighted sources target cutoff fo wp.
+  Proof.
+    intros pi g weighted sources target cutoff fo wp P U. unfold multi_source_arm.
+    now rewrite post_arm_abort_eq_serial.
+  Qed.
+
+  (* coherent adjacency and name indexes: ANY weights, any names (absent ones are rejected up front by
+     both arms alike), any options *)
+  Lemma multi_source_arms_wf : forall (a : arm) (g : gstate) weighted sources target cutoff fo wp,
+    wf_adj g -> names_wf teqb g ->
+    (fail_alike (multi_source_item teqb g weighted target cutoff fo wp) sources ->
+     post_arm a (multi_source_item teqb g weighted target cutoff fo wp) (fun l => Ok (collect_map teqb l)) sources =
+     post_arm Serial (multi_source_item teqb g weighted target cutoff fo wp) (fun l => Ok (collect_map teqb l)) sources) ->
+    multi_source_arm teqb a g weighted sources target cutoff fo wp =
+    multi_source_arm teqb Serial g weighted sources target cutoff fo wp.
+  Proof.
+    intros a g weighted sources target cutoff fo wp W N H. unfold multi_source_arm.
+    destruct (has_nodes teqb g sources) as [b| | |] eqn:Eb; cbn [bind]; try reflexivity.
+    destruct b; cbn [negb]; [|reflexivity].
+    destruct (match target with Some t => has_node teqb g t | None => Ok true end) as [tb| | |] eqn:Et; cbn [bind]; try reflexivity.
+    destruct tb; cbn [negb]; [|reflexivity].
+    apply H. apply multi_source_items_fail_alike; [exact W | exact N | now apply has_nodes_true_lookup |].
+    intros t ->. now apply has_node_true_lookup.
+  Qed.
+
+  Theorem multi_source_parallel_eq_serial_wf : forall pi (g : gstate) weighted sources target cutoff fo wp,
+    wf_adj g -> names_wf teqb g -> schedule (length sources) pi ->
+    multi_source_arm teqb (Rayon pi) g weighted sources target cutoff fo wp =
+    multi_source_arm teqb Serial g weighted sources target cutoff fo wp.
+  Proof.
+    intros pi g weighted sources target cutoff fo wp W N P. apply multi_source_arms_wf; [exact W | exact N|].
+    intros U. now apply post_arm_par_eq_serial.
+  Qed.
+
+  Theorem multi_source_abort_eq_serial_wf : forall pi (g : gstate) weighted sources target cutoff fo wp,
+    wf_adj g -> names_wf teqb g -> schedule (length sources) pi ->
+    multi_source_arm teqb (RayonAbort pi) g weighted sources target cutoff fo wp =
+    multi_source_arm teqb Serial g weighted sources target cutoff fo wp.
+  Proof.
+    intros pi g weighted sources target cutoff fo wp W N P. apply multi_source_arms_wf; [exact W | exact N|].
+    intros U. now apply post_arm_abort_eq_serial.
+  Qed.
+
+  (* every graph state: success and the value on success do not depend on the arm *)
+  Theorem multi_source_ok_any_state : forall pi (g : gstate) weighted sources target cutoff fo wp mm,
+    schedule (length sources) pi ->
+    (multi_source_arm teqb (Rayon pi) g weighted sources target cutoff fo wp = Ok mm <->
+     multi_source_arm teqb Serial g weighted sources target cutoff fo wp = Ok mm).
+  Proof.
+    intros pi g weighted sources target cutoff fo wp mm P. unfold multi_source_arm.
+    destruct (has_nodes teqb g sources) as [b| | |]; cbn [bind]; try tauto.
+    destruct (negb b); [tauto|].
+    destruct (match target with Some t => has_node teqb g t | None => Ok true end) as [tb| | |]; cbn [bind]; try tauto.
+    destruct (negb tb); [tauto|]. unfold post_arm. cbn [gather_result].
+    set (f := multi_source_item teqb g weighted target cutoff fo wp).
+    destruct (is_ok (gather_seq f sources)) eqn:O.
+    - destruct (gather_seq f sources) as [ys| | |] eqn:E; try discriminate.
+      rewrite (gather_result_ok f pi sources ys P E). tauto.
+    - destruct (gather_result_fail f pi sources P O) as (x & _ & Hf & Ea). rewrite Ea.
+      destruct (f x); try discriminate; destruct (gather_seq f sources); try discriminate; cbn; split; discriminate.
   Qed.
 
   Theorem multi_source_serial_is_model : forall threads (g : gstate) weighted sources target cutoff fo wp,
     multi_source_arm teqb Serial g weighted sources target cutoff fo wp =
     multi_source teqb threads g weighted sources target cutoff fo wp.
   Proof.
-    intros. unfold multi_source_arm, multi_source, post_arm, multi_source_item. cbn [gather]. unfold gather_seq.
+    intros. unfold multi_source_arm, multi_source, post_arm, multi_source_item. cbn [gather_result]. unfold gather_seq.
     destruct (parallel g threads); reflexivity.
   Qed.
 
   Theorem multi_source_sched_unobservable : forall threads pi threads' (g : gstate) weighted sources target cutoff fo wp,
-    schedule (length sources) pi ->
+    wf_adj g -> names_wf teqb g -> schedule (length sources) pi ->
     multi_source_sched teqb threads pi g weighted sources target cutoff fo wp =
     multi_source teqb threads' g weighted sources target cutoff fo wp.
   Proof.
-    intros threads pi threads' g weighted sources target cutoff fo wp P.
+    intros threads pi threads' g weighted sources target cutoff fo wp W N P.
     unfold multi_source_sched, arm_of. destruct (parallel g threads).
-    - rewrite multi_source_parallel_eq_serial by exact P. apply multi_source_serial_is_model.
+    - rewrite multi_source_parallel_eq_serial_wf by assumption. apply multi_source_serial_is_model.
     - apply multi_source_serial_is_model.
   Qed.
 
   (* --- all_pairs --- *)
-  Theorem all_pairs_iter_parallel_eq_serial : forall pi (g : gstate) weighted target cutoff fo wp,
-    schedule (number_of_nodes g) pi ->
-    all_pairs_iter_arm teqb (Rayon pi) g weighted target cutoff fo wp =
+  Lemma all_pairs_iter_arms_wf : forall (a : arm) (g : gstate) weighted target cutoff fo wp,
+    wf_adj g ->
+    (forall ti, gather_result a (all_pairs_item g weighted target ti cutoff fo wp) (seq 0 (number_of_nodes g)) =
+                gather_seq (all_pairs_item g weighted target ti cutoff fo wp) (seq 0 (number_of_nodes g))) ->
+    all_pairs_iter_arm teqb a g weighted target cutoff fo wp =
     all_pairs_iter_arm teqb Serial g weighted target cutoff fo wp.
   Proof.
-    intros pi g weighted target cutoff fo wp P. unfold all_pairs_iter_arm.
+    intros a g weighted target cutoff fo wp W H. unfold all_pairs_iter_arm.
     destruct (match target with
               | Some t => do i <- unwrap_result "dijkstra.rs:153" (get_node_index teqb g t); Ok (Some i)
               | None => Ok None
-              end) as [ti| | |]; cbn [bind gather]; try reflexivity.
-    apply gather_par_eq_seq. now rewrite seq_length.
+              end) as [ti| | |]; cbn [bind]; try reflexivity.
+    rewrite H. reflexivity.
+  Qed.
+
+  Theorem all_pairs_iter_parallel_eq_serial : forall pi (g : gstate) weighted target cutoff fo wp,
+    wf_adj g -> schedule (number_of_nodes g) pi ->
+    all_pairs_iter_arm teqb (Rayon pi) g weighted target cutoff fo wp =
+    all_pairs_iter_arm teqb Serial g weighted target cutoff fo wp.
+  Proof.
+    intros pi g weighted target cutoff fo wp W P. apply all_pairs_iter_arms_wf; [exact W|]. intros ti. cbn [gather_result].
+    apply gather_result_eq_seq; [now rewrite seq_length | now apply all_pairs_items_fail_alike].
   Qed.
 
   Theorem all_pairs_iter_serial_is_model : forall (g : gstate) weighted target cutoff fo wp,
@@ -276,12 +541,50 @@ Section DijkstraArmsOk.
   Proof. reflexivity. Qed.
 
   Theorem all_pairs_parallel_eq_serial : forall pi (g : gstate) weighted target cutoff fo wp,
-    schedule (number_of_nodes g) pi ->
+    wf_adj g -> schedule (number_of_nodes g) pi ->
     all_pairs_arm teqb (Rayon pi) g weighted target cutoff fo wp =
     all_pairs_arm teqb Serial g weighted target cutoff fo wp.
   Proof.
-    intros pi g weighted target cutoff fo wp P. unfold all_pairs_arm.
+    intros pi g weighted target cutoff fo wp W P. unfold all_pairs_arm.
     now rewrite all_pairs_iter_parallel_eq_serial.
+  Qed.
+
+  Theorem all_pairs_abort_eq_serial : forall pi (g : gstate) weighted target cutoff fo wp,
+    wf_adj g -> schedule (number_of_nodes g) pi ->
+    all_pairs_arm teqb (RayonAbort pi) g weighted target cutoff fo wp =
+    all_pairs_arm teqb Serial g weighted target cutoff fo wp.
+  Proof.
+    intros pi g weighted target cutoff fo wp W P. unfold all_pairs_arm.
+    assert (E : all_pairs_iter_arm teqb (RayonAbort pi) g weighted target cutoff fo wp =
+                all_pairs_iter_arm teqb Serial g weighted target cutoff fo wp).
+    { apply all_pairs_iter_arms_wf; [exact W|]. intros ti. cbn [gather_result].
+      apply gather_abort_eq_seq; [now rewrite seq_length | now apply all_pairs_items_fail_alike]. }
+    now rewrite E.
+  Qed.
+
+  (* every graph state: success and the value on success do not depend on the arm *)
+  Theorem all_pairs_ok_any_state : forall pi (g : gstate) weighted target cutoff fo wp mm,
+    schedule (number_of_nodes g) pi ->
+    (all_pairs_arm teqb (Rayon pi) g weighted target cutoff fo wp = Ok mm <->
+     all_pairs_arm teqb Serial g weighted target cutoff fo wp = Ok mm).
+  Proof.
+    intros pi g weighted target cutoff fo wp mm P. unfold all_pairs_arm.
+    destruct (if weighted then ensure_weighted g else Ok tt) as [u| | |]; cbn [bind]; try tauto.
+    destruct (match target with Some t => do _ <- get_node_index teqb g t; Ok tt | None => Ok tt end) as [u'| | |];
+      cbn [bind]; try tauto.
+    unfold all_pairs_iter_arm.
+    destruct (match target with
+              | Some t => do i <- unwrap_result "dijkstra.rs:153" (get_node_index teqb g t); Ok (Some i)
+              | None => Ok None
+              end) as [ti| | |]; cbn [bind]; try tauto.
+    cbn [gather_result]. set (f := all_pairs_item g weighted target ti cutoff fo wp).
+    assert (P' : schedule (length (seq 0 (number_of_nodes g))) pi) by now rewrite seq_length.
+    destruct (is_ok (gather_seq f (seq 0 (number_of_nodes g)))) eqn:O.
+    - destruct (gather_seq f (seq 0 (number_of_nodes g))) as [ys| | |] eqn:E; try discriminate.
+      rewrite (gather_result_ok f pi _ ys P' E). tauto.
+    - destruct (gather_result_fail f pi _ P' O) as (x & _ & Hf & Ea). rewrite Ea.
+      destruct (f x); try discriminate; destruct (gather_seq f (seq 0 (number_of_nodes g))); try discriminate;
+        cbn; split; discriminate.
   Qed.
 
   Theorem all_pairs_serial_is_model : forall threads (g : gstate) weighted target cutoff fo wp,
@@ -293,94 +596,24 @@ Section DijkstraArmsOk.
   Qed.
 
   Theorem all_pairs_sched_unobservable : forall threads pi threads' (g : gstate) weighted target cutoff fo wp,
-    schedule (number_of_nodes g) pi ->
+    wf_adj g -> schedule (number_of_nodes g) pi ->
     all_pairs_sched teqb threads pi g weighted target cutoff fo wp =
     all_pairs teqb threads' g weighted target cutoff fo wp.
   Proof.
-    intros threads pi threads' g weighted target cutoff fo wp P.
+    intros threads pi threads' g weighted target cutoff fo wp W P.
     unfold all_pairs_sched, arm_of. destruct (parallel g threads).
-    - rewrite all_pairs_parallel_eq_serial by exact P. apply all_pairs_serial_is_model.
+    - rewrite all_pairs_parallel_eq_serial by assumption. apply all_pairs_serial_is_model.
     - apply all_pairs_serial_is_model.
   Qed.
 
   (* --- get_all_shortest_paths_involving --- *)
   Theorem involving_parallel_eq_serial : forall pi (g : gstate) node_name weighted,
-    schedule (number_of_nodes g) pi ->
+    wf_adj g -> schedule (number_of_nodes g) pi ->
     get_all_shortest_paths_involving_arm teqb (Rayon pi) g node_name weighted =
     get_all_shortest_paths_involving_arm teqb Serial g node_name weighted.
   Proof.
-    intros pi g node_name weighted P. unfold get_all_shortest_paths_involving_arm.
+    intros pi g node_name weighted W P. unfold get_all_shortest_paths_involving_arm.
     now rewrite all_pairs_parallel_eq_serial.
-  Qed.
-
-  Theorem involving_serial_is_model : forall threads (g : gstate) node_name weighted,
-    get_all_shortest_paths_involving_arm teqb Serial g node_name weighted =
-    get_all_shortest_paths_involving teqb threads g node_name weighted.
-  Proof.
-    intros. unfold get_all_shortest_paths_involving_arm, get_all_shortest_paths_involving.
-    now rewrite (all_pairs_serial_is_model threads).
-  Qed.
-
-  Theorem involving_sched_unobservable : forall threads pi threads' (g : gstate) node_name weighted,
-    schedule (number_of_nodes g) pi ->
-    get_all_shortest_paths_involving_sched teqb threads pi g node_name weighted =
-    get_all_shortest_paths_involving teqb threads' g node_name weighted.
-  Proof.
-    intros threads pi threads' g node_name weighted P.
-    unfold get_all_shortest_paths_involving_sched, arm_of. destruct (parallel g threads).
-    - rewrite involving_parallel_eq_serial by exact P. apply involving_serial_is_model.
-    - apply involving_serial_is_model.
-  Qed.
-
-  (* ---- the pessimistic failure rule (no reliance on rayon::join's panic precedence) ---- *)
-  Theorem multi_source_abort_eq_serial : forall pi (g : gstate) weighted sources target cutoff fo wp,
-    schedule (length sources) pi ->
-    fail_alike (multi_source_item teqb g weighted target cutoff fo wp) sources ->
-    multi_source_arm teqb (RayonAbort pi) g weighted sources target cutoff fo wp =
-    multi_source_arm teqb Serial g weighted sources target cutoff fo wp.
-  Proof.
-    intros pi g weighted sources target cutoff fo wp P U. unfold multi_source_arm.
-    now rewrite post_arm_abort_eq_serial.
-  Qed.
-
-  (* on a well-formed adjacency the per-source search neither panics nor runs out of fuel
-     (DijkstraTotalOk), so the only failure of an all_pairs item is the `.unwrap()` of an Err at
-     dijkstra.rs:172 — the same panic for every item, whatever the weights *)
-  Lemma run_from_index_fine : forall (g : gstate) weighted src target ti cutoff fo wp,
-    wf_adj g -> src < number_of_nodes g -> fine (run_from_index g weighted src target ti cutoff fo wp).
-  Proof.
-    intros g weighted src target ti cutoff fo wp [Hlen Hrange Hrows Hsmall] Hs. unfold run_from_index.
-    destruct (can_use_basic target cutoff fo wp).
-    - apply dijkstra_basic_fine; assumption.
-    - apply dijkstra_fine; assumption.
-  Qed.
-
-  Lemma all_pairs_items_fail_alike : forall (g : gstate) weighted target ti cutoff fo wp,
-    wf_adj g ->
-    fail_alike (all_pairs_item g weighted target ti cutoff fo wp) (seq 0 (number_of_nodes g)).
-  Proof.
-    intros g weighted target ti cutoff fo wp W x x' Hx Hx' Hf Hf'.
-    apply in_seq in Hx. apply in_seq in Hx'.
-    assert (F := run_from_index_fine g weighted x target ti cutoff fo wp W ltac:(lia)).
-    assert (F' := run_from_index_fine g weighted x' target ti cutoff fo wp W ltac:(lia)).
-    unfold all_pairs_item in *.
-    destruct (run_from_index g weighted x target ti cutoff fo wp); cbn in F, Hf |- *; try contradiction; try discriminate.
-    destruct (run_from_index g weighted x' target ti cutoff fo wp); cbn in F', Hf' |- *; try contradiction; try discriminate.
-    reflexivity.
-  Qed.
-
-  Theorem all_pairs_abort_eq_serial : forall pi (g : gstate) weighted target cutoff fo wp,
-    wf_adj g -> schedule (number_of_nodes g) pi ->
-    all_pairs_arm teqb (RayonAbort pi) g weighted target cutoff fo wp =
-    all_pairs_arm teqb Serial g weighted target cutoff fo wp.
-  Proof.
-    intros pi g weighted target cutoff fo wp W P. unfold all_pairs_arm. f_equal.
-    unfold all_pairs_iter_arm.
-    destruct (match target with
-              | Some t => do i <- unwrap_result "dijkstra.rs:153" (get_node_index teqb g t); Ok (Some i)
-              | None => Ok None
-              end) as [ti| | |]; cbn [bind gather]; try reflexivity.
-    rewrite gather_abort_eq_seq; [reflexivity | now rewrite seq_length | now apply all_pairs_items_fail_alike].
   Qed.
 
   Theorem involving_abort_eq_serial : forall pi (g : gstate) node_name weighted,
@@ -392,24 +625,52 @@ Section DijkstraArmsOk.
     now rewrite all_pairs_abort_eq_serial.
   Qed.
 
-  (* multi_source: the per-source calls all succeed under the hypotheses of
-     C04_model_single_source_names, so the arms agree under either failure rule *)
-  Lemma multi_source_items_ok :
-    (forall a b, teqb a b = true <-> a = b) ->
-    forall (g : gstate) weighted sources target cutoff fo wp,
-    wf_adj g -> names_wf teqb g -> nonneg (wgraph_of weighted (successors_vec g)) ->
-    (forall s, In s sources -> exists si, lookup teqb s (nodes_map g) = Some si) ->
-    (forall t, target = Some t -> exists i, lookup teqb t (nodes_map g) = Some i) ->
-    cutoff_exceeded cutoff 0 = false ->
-    fail_alike (multi_source_item teqb g weighted target cutoff fo wp) sources.
+  Theorem involving_serial_is_model : forall threads (g : gstate) node_name weighted,
+    get_all_shortest_paths_involving_arm teqb Serial g node_name weighted =
+    get_all_shortest_paths_involving teqb threads g node_name weighted.
   Proof.
-    intros Hspec g weighted sources target cutoff fo wp W N NN Hs Ht Hc.
-    apply all_ok_fail_alike. intros s Hin. destruct (Hs s Hin) as [si Hsi].
-    destruct (single_source_names_ok teqb Hspec g weighted W N NN s target cutoff fo wp si Hsi Ht Hc)
-      as (m & ti & r & E & _).
-    unfold multi_source_item. rewrite E. reflexivity.
+    intros. unfold get_all_shortest_paths_involving_arm, get_all_shortest_paths_involving.
+    now rewrite (all_pairs_serial_is_model threads).
+  Qed.
+
+  Theorem involving_sched_unobservable : forall threads pi threads' (g : gstate) node_name weighted,
+    wf_adj g -> schedule (number_of_nodes g) pi ->
+    get_all_shortest_paths_involving_sched teqb threads pi g node_name weighted =
+    get_all_shortest_paths_involving teqb threads' g node_name weighted.
+  Proof.
+    intros threads pi threads' g node_name weighted W P.
+    unfold get_all_shortest_paths_involving_sched, arm_of. destruct (parallel g threads).
+    - rewrite involving_parallel_eq_serial by assumption. apply involving_serial_is_model.
+    - apply involving_serial_is_model.
   Qed.
 End DijkstraArmsOk.
+
+(* every state a mutation history can reach is WF, hence has a coherent adjacency and name index
+   (Proofs/DijkstraWF.v); the size bound [small_adj] (the i32 counter) is the one thing WF cannot give *)
+Section DijkstraArmsWF.
+  Context {T A : Type}.
+  Variable teqb : T -> T -> bool.
+  Variable tltb : T -> T -> bool.
+  Notation gstate := (gstate T A).
+
+  Theorem multi_source_parallel_eq_serial_WF : forall pi (g : gstate) weighted sources target cutoff fo wp,
+    @WF T A teqb tltb g -> small_adj g -> schedule (length sources) pi ->
+    multi_source_arm teqb (Rayon pi) g weighted sources target cutoff fo wp =
+    multi_source_arm teqb Serial g weighted sources target cutoff fo wp.
+  Proof.
+    intros pi g weighted sources target cutoff fo wp W Hs P.
+    apply multi_source_parallel_eq_serial_wf; [eapply WF_wf_adj; eauto | eapply WF_names_wf; eauto | exact P].
+  Qed.
+
+  Theorem all_pairs_parallel_eq_serial_WF : forall pi (g : gstate) weighted target cutoff fo wp,
+    @WF T A teqb tltb g -> small_adj g -> schedule (number_of_nodes g) pi ->
+    all_pairs_arm teqb (Rayon pi) g weighted target cutoff fo wp =
+    all_pairs_arm teqb Serial g weighted target cutoff fo wp.
+  Proof.
+    intros pi g weighted target cutoff fo wp W Hs P.
+    apply all_pairs_parallel_eq_serial; [eapply WF_wf_adj; eauto | exact P].
+  Qed.
+End DijkstraArmsWF.
 
 (* ------------------------------------------------------------------ betweenness.rs *)
 Theorem bc_parallel_eq_serial : forall pi lw weighted (g : qadj),
@@ -648,15 +909,24 @@ Proof.
   - repeat split; eexists; repeat split; reflexivity.
 Qed.
 
-(* failing items are covered: with a negative weight every per-source search of this graph that
-   meets it returns ContradictoryPaths, the closure's `.unwrap()` panics, and all three arms
-   report that panic *)
-Example arms_agree_on_panic :
+(* failing items are covered: with a negative weight the per-source search of this graph from node 1
+   returns ContradictoryPaths (F22's graph); the closure returns that `Err`, the region collects into
+   `Result`, and all three arms of all_pairs / multi_source return Err ContradictoryPaths, whatever the
+   schedule; get_all_shortest_paths_involving (no error channel) maps it to the empty vector in every arm *)
+Example arms_agree_on_err :
   match ex_neg with
   | Ok g =>
-    all_pairs_arm Z.eqb (Rayon [2; 0; 1]) g true None None false true = Panic "dijkstra.rs:172" /\
-    all_pairs_arm Z.eqb Serial g true None None false true = Panic "dijkstra.rs:172" /\
-    all_pairs_arm Z.eqb (RayonAbort [2; 0; 1]) g true None None false true = Panic "dijkstra.rs:172"
+    all_pairs_arm Z.eqb Serial g true None None false true = Err ContradictoryPaths /\
+    all_pairs_arm Z.eqb (Rayon [0; 1; 2]) g true None None false true = Err ContradictoryPaths /\
+    all_pairs_arm Z.eqb (Rayon [2; 0; 1]) g true None None false true = Err ContradictoryPaths /\
+    all_pairs_arm Z.eqb (Rayon [2; 1; 0]) g true None None false true = Err ContradictoryPaths /\
+    all_pairs_arm Z.eqb (RayonAbort [2; 0; 1]) g true None None false true = Err ContradictoryPaths /\
+    all_pairs_arm Z.eqb (RayonAbort [1; 2; 0]) g true None None false true = Err ContradictoryPaths /\
+    multi_source_arm Z.eqb (Rayon [2; 0; 1]) g true [2%Z; 1%Z; 3%Z] None None false true = Err ContradictoryPaths /\
+    multi_source_arm Z.eqb Serial g true [2%Z; 1%Z; 3%Z] None None false true = Err ContradictoryPaths /\
+    multi_source_arm Z.eqb (RayonAbort [2; 0; 1]) g true [2%Z; 1%Z; 3%Z] None None false true = Err ContradictoryPaths /\
+    get_all_shortest_paths_involving_arm Z.eqb (Rayon [2; 0; 1]) g 3%Z true = Ok [] /\
+    get_all_shortest_paths_involving_arm Z.eqb Serial g 3%Z true = Ok []
   | _ => False
   end.
 Proof. vm_compute. repeat split. Qed.
@@ -678,4 +948,26 @@ Example failure_rules_differ :
   gather_par [1; 2; 0] f [0; 1; 2] = Panic "site A" /\
   run_plan (PFork 1 true PSeq PSeq) f [0; 1; 2] 0 3 = Panic "site A" /\
   gather_abort [1; 2; 0] f [0; 1; 2] = Panic "site B".
+Proof. vm_compute. repeat split. Qed.
+
+(* the Result-collecting region really is schedule dependent when the items return DIFFERENT errors
+   (rayon: "If there are multiple errors, the one returned is not deterministic"): the error of the
+   erring item that ran first is kept, the serial collect returns the one of the lowest index; an item
+   that would have panicked is not even started once an error has been recorded.  This is why the
+   per-function theorems need "the failing items fail alike" — which dijkstra.rs guarantees: after the
+   up-front name checks the only per-source error is ContradictoryPaths. *)
+Example result_region_keeps_some_error :
+  let f := fun x : nat => match x with
+                          | 0 => Err NodeNotFound | 1 => Err ContradictoryPaths | 3 => Panic "site C" | _ => Ok x
+                          end in
+  gather_seq f [0; 1; 2; 3] = Err NodeNotFound /\
+  gather_result_par [0; 1; 2; 3] f [0; 1; 2; 3] = Err NodeNotFound /\
+  gather_result_par [1; 2; 3; 0] f [0; 1; 2; 3] = Err ContradictoryPaths /\
+  gather_result_par [2; 3; 1; 0] f [0; 1; 2; 3] = Panic "site C" /\
+  gather_abort [1; 2; 3; 0] f [0; 1; 2; 3] = Err ContradictoryPaths /\
+  (* ... and not when they fail alike *)
+  (let h := fun x : nat => match x with 0 | 2 => Err ContradictoryPaths | _ => Ok x end in
+   gather_seq h [0; 1; 2] = Err ContradictoryPaths /\
+   gather_result_par [2; 1; 0] h [0; 1; 2] = Err ContradictoryPaths /\
+   gather_result_par [1; 2; 0] h [0; 1; 2] = Err ContradictoryPaths).
 Proof. vm_compute. repeat split. Qed.
